@@ -522,6 +522,7 @@ def check_txid(ctx, rng, model, txobj):
             undo = lambda: setattr(txobj, "tx_outs", old)  # noqa: E731
         if undo is None:
             continue
+        outcome(txobj.serialize)  # the Tx.serialize contract compares with the object's *current* fields (stale memos)
         o3 = outcome(txobj.id)
         ctx.count("txid:nonwitness-edit-differs")
         ctx.monitor("txid")
